@@ -135,7 +135,7 @@ func runC19(r *engine.Run) {
 	r.Rule("AGREE-pairing", "builder, prover and verifier of the Merkle tree agree on how a node is paired with its sibling: the builder hashes MHash(left, right) with right = left + 1 and duplicates the last node of an odd level; the verifier puts the path element first when the running index is odd and second when it is even; the prover takes the element before an odd index and the element after an even index (itself when none follows)")
 	r.Rule("AGREE-progression", "the three walks over the levels (size computation, builder, prover) step with the same expressions: next level size = ceil(size/2), next level offset = offset + size; verifier and prover halve the index the same way; the prover (which handles the leaf level before its loop) stops one level size later than the builder")
 	r.Rule("DOM-inlevel", "the prover reads the element after an even index only under the strict test that this element still lies inside the current level (index + 1 < level start + level size, with the level size the walk itself uses)")
-	r.Rule("DEP-offered", "verification recomputes the root from the offered leaf hash: VerifyMerklePath starts its running hash from its hash argument and compares the result with its root argument; VerifyPath hands it GetHash() of the offered node, the offered path and the tree's own root (a verifier that starts from the stored leaf only checks membership, so a path proves every leaf)")
+	r.Rule("DEP-offered", "verification recomputes the root from the offered leaf hash: VerifyMerklePath starts its running hash from its hash argument and compares the result with its root argument; VerifyPath hands it GetHash() of the offered node, the offered path and the tree's own root (a verifier that starts from the stored leaf only checks membership, so a path proves every leaf); that comparison is the only comparison of hash strings in the verifier (no other equality between path elements or running hashes decides acceptance)")
 	r.Rule("AGREE-shape", "ComputeTree and SetTree establish the same three fields from computeSize; a path has levels - 1 elements; the root is the last element of the tree")
 	r.Rule("FRESH-tree", "GetTree hands out the node slice and SetTree installs the caller's slice without copying, so a method that stores nodes element by element (ComputeTree) assigns the tree field only from a make: recomputing never writes into memory an exported or loaded tree still uses")
 	r.Rule("DOM-atomic", "in SetTree no store to a receiver field can be followed by an error return: a rejected load leaves the tree (nodes, leaf count, levels) exactly as it was")
@@ -522,6 +522,37 @@ func c19Offered(r *engine.Run, verify *ssa.Function) {
 	}
 	r.Check(startOK && cmpOK, rule, fn(verify)+"|from offered hash to given root", r.P.Pos(verify.Pos()), "running hash starts at the offered hash and is compared with the given root",
 		fmt.Sprintf("the verifier does not recompute from the offered hash to the given root (starts at offered hash=%v, compares with root=%v)", startOK, cmpOK))
+	// the comparison with the root is the verifier's only verdict: no other
+	// comparison of hash strings decides acceptance. An honest path may contain
+	// a sibling equal to the running hash (adjacent duplicate leaves, equal
+	// aligned subtrees); a "hardening" that rejects such a pair rejects honest
+	// paths of the tree's own root.
+	extra := ""
+	ncmp := 0
+	engine.Instrs(verify, func(in ssa.Instruction) {
+		b, ok := in.(*ssa.BinOp)
+		if !ok || (b.Op != token.EQL && b.Op != token.NEQ) || !engine.IsString(b.X.Type()) {
+			return
+		}
+		ncmp++
+		if b.X != ssa.Value(verify.Params[2]) && b.Y != ssa.Value(verify.Params[2]) {
+			extra = r.P.Pos(b.Pos())
+		}
+	})
+	for _, ret := range engine.Returns(verify) {
+		if c, isC := ret.Results[0].(*ssa.Const); isC && c.Value != nil && extra == "" {
+			// a constant verdict is only acceptable for a malformed path (no hash comparison on the way)
+			if facts, ok := engine.FactsOn(verify, ret.Block()); ok {
+				for _, ft := range facts {
+					if ft.Kind == "eq" && engine.IsString(ft.A.Type()) {
+						extra = r.P.Pos(ret.Pos())
+					}
+				}
+			}
+		}
+	}
+	r.Check(extra == "" && ncmp >= 1, rule, fn(verify)+"|only verdict", r.P.Pos(verify.Pos()), "the only comparison of hash strings is the final one with the given root",
+		"the verifier compares hash strings other than the recomputed root with the given root (at "+extra+") and lets that decide: a sibling that happens to equal the running hash (adjacent duplicate leaves, equal aligned subtrees) makes it reject the honest path the tree itself produced")
 	vp := r.Fn(rule, pkgUtil, "MerkleTree", "VerifyPath")
 	if vp == nil {
 		return
